@@ -3,7 +3,7 @@
 # then store it as /verif/seeded/<PID>/ (patch.diff, demo, meta.json + confirm.log).
 set -u
 PID=$1; NAME=${2:-$PID}
-WT=/tmp/seed_$PID; OUT=$WT/SEED_OUT
+WT=${WT:-/tmp/seed_$PID}; OUT=$WT/SEED_OUT
 export GOFLAGS=-mod=mod GOPROXY=off GOSUMDB=off GOTOOLCHAIN=local
 cd $WT || exit 2
 LOG=/tmp/seed_confirm_$NAME.log; : > $LOG
@@ -33,7 +33,7 @@ NEWFAIL=$(grep -v "TestCreateVestingAccount\|TestMsgCreateVestingAccount_Validat
 echo "RESULT demo_without=$R0 build=$RB demo_with=$R1 new_failures=$NEWFAIL" | tee -a $LOG
 if [ $R0 -eq 0 ] && [ $RB -eq 0 ] && [ $R1 -ne 0 ] && [ $NEWFAIL -eq 0 ]; then
   D=/verif/seeded/$NAME; mkdir -p $D
-  cp $OUT/patch.diff $D/patch.diff; cp $OUT/meta.json $D/meta.agent.json; cp $OUT/demo_cmd.txt $D/demo_cmd.txt
+  cp $OUT/patch.diff $D/patch.diff; cp $OUT/meta.json $D/meta.agent.json; grep -m1 "go test" $OUT/demo_cmd.txt > $D/demo_cmd.txt
   for f in $OUT/*_test.go*; do b=$(basename $f); cp $f $D/${b%.txt}.txt; done
   cp $LOG $D/confirm.log
   echo CONFIRMED $NAME
